@@ -1080,6 +1080,56 @@ fn mode_compose(r: &mut Runner) {
             Err(std::io::Error::new(std::io::ErrorKind::ConnectionRefused, m.to_string()))
         }
     }
+    // a wrapped sink (and an error handler) that needs a fair amount of stack - well within what any thread gets by
+    // default (100 KiB of a 2 MiB stack): "all wrapped-sink behaviours" includes this one; it runs on the queue's thread
+    {
+        struct StackHungry {
+            inner: GatedSink,
+        }
+        #[inline(never)]
+        fn burn(depth: usize, seed: u8) -> u64 {
+            let mut pad = [seed; 10 * 1024];
+            std::hint::black_box(&mut pad);
+            let below = if depth > 0 { burn(depth - 1, seed.wrapping_add(1)) } else { 0 };
+            below + pad[pad.len() / 2] as u64 + std::hint::black_box(&pad)[0] as u64
+        }
+        impl cadence::MetricSink for StackHungry {
+            fn emit(&self, m: &str) -> std::io::Result<usize> {
+                std::hint::black_box(burn(9, m.len() as u8));
+                self.inner.emit(m)
+            }
+        }
+        let sh = Shared::new(false);
+        set_current(Some(sh.clone()));
+        let hits = Arc::new(std::sync::atomic::AtomicU64::new(0));
+        let h2 = std::panic::AssertUnwindSafe(hits.clone());
+        let q = QueuingMetricSink::builder()
+            .with_error_handler(move |_e: std::io::Error| {
+                h2.fetch_add(burn(9, 3) % 2 + 1, std::sync::atomic::Ordering::SeqCst);
+            })
+            .build(StackHungry { inner: GatedSink { sh: sh.clone() } });
+        let n = 24usize;
+        for k in 0..n {
+            let _ = q.emit(&metric_text(&format!("stack{}.n{}", r.sid, k), &if k % 5 == 0 { Out::Err(0) } else { Out::Ok }, 0));
+        }
+        let waited = await_log(&sh, |st| st.log.iter().filter(|e| matches!(e, Ev::Exit { .. })).count() >= n);
+        {
+            let mut rep = r.rep();
+            rep.eval();
+            rep.obs("metrics_through_a_wrapped_sink_that_uses_100_KiB_of_stack", n as u64);
+            rep.distinct("compose|stack-hungry");
+            if let Err(st) = waited {
+                if st.is_verdict() && (r.prop == "C08" || r.prop == "C10") {
+                    let p = r.prop.clone();
+                    rep.violation(Violation { property: p, rule: "R1".into(), class: "accepted-never-delivered".into(), detail: format!("[compose stack-hungry wrapped sink] {}", st.describe()), replay_args: r.args.to_vec_with(&[]), trace: Json::Null });
+                }
+            }
+        }
+        drop(q);
+        let _ = await_log(&sh, |st| st.log.iter().any(|e| matches!(e, Ev::SinkDrop { .. })));
+        let _ = await_no_library_thread();
+        set_current(None);
+    }
     for variant in 0..6u64 {
         let n = [40usize, 300, 120, 40, 300, 120][variant as usize];
         let inner_cap = if variant % 3 == 1 { Some(4096usize) } else { None };
